@@ -9,6 +9,7 @@
 -/
 import NetflowModel.Lemmas.A7ExportStream
 import NetflowModel.Generated
+import NetflowModel.Lemmas.G1Arms
 namespace Netflow.Props
 open Netflow Netflow.A7 Preds
 
@@ -251,5 +252,13 @@ theorem C09_full_fails : ¬ C09_full := by
   have := C09_full_reexport H _ _ _ _ _ C09_fails_duration
   revert this
   decide +kernel
+
+/-- **C09.G** (regenerated on every run) the value encoders of the model ARE the interpretations of the arms of
+    `FieldValue::to_be_bytes` and `DataNumber::to_be_bytes` as read from data_number.rs now. -/
+theorem C09_export_arms_generated (c : ValueCfg) (v : FieldValue) :
+    v.toBE c = toBEBy Generated.exportArms c v := G1.toBE_eq_generated c v
+
+theorem C09_number_export_arms_generated (d : DataNumber) :
+    d.toBE = dnToBEBy Generated.dnExportArms d := G1.dnToBE_eq_generated d
 
 end Netflow.Props
